@@ -186,7 +186,7 @@ func C01Scenarios(tier string) []*h.Scenario {
 					vals = c01TaintValues
 				}
 				ev := perNodeEvents(hh, g, 4, vals)
-				ev = append(ev, evBurst(g, 3, 1000), evClearPending(g), evRestart(), evStale(), evSkipSettle(), evRefreshFails())
+				ev = append(ev, evBurst(g, 3, 1000), evClearPending(g), evRestart(), evStale(), evSkipSettle(), evRefreshFails(), evPodRecreatedSelecting(g))
 				return ev
 			},
 		}
@@ -209,8 +209,11 @@ func C01Scenarios(tier string) []*h.Scenario {
 		hh.W.AddPod(podOn(g, n1.Name, 500))
 		n2 := hh.W.AddNode(a, sim.NodeOpt{Age: 19 * Q, TaintAge: dp(1 * Q)})
 		hh.W.AddPod(podOn(g, n2.Name, 200))
-		hh.W.AddNode(a, sim.NodeOpt{Age: 18 * Q, TaintAge: dp(3 * Q)})
+		n3 := hh.W.AddNode(a, sim.NodeOpt{Age: 18 * Q, TaintAge: dp(3 * Q)})
 		hh.W.AddNode(a, sim.NodeOpt{Age: 17 * Q, ForceTaint: true})
+		// a pod of nobody's (it selects no configured group) runs on the expired node; it may be
+		// re-created under the same name selecting this group
+		hh.W.AddPod(sim.PodOpt{Node: n3.Name, CPUMilli: 50, MemBytes: 64 << 20, Selector: map[string]string{"team": "somebody-else"}})
 	}
 	// a group that can go over max_nodes (extra node registering): the early-return paths must not
 	// reap on information from an earlier scan
